@@ -163,7 +163,16 @@ fn check_verdict(case: &Case, rep: &mut Report) {
 /// the same history without the rejected ones
 fn check_no_effect(rng: &mut Rng, rep: &mut Report) {
     let spec = random_spec(rng, false);
-    let base = gen_case(rng, spec, 6);
+    let mut base = gen_case(rng, spec, 6);
+    // balances of third parties stay away from 2^256-1: a credit that passes the maximum is
+    // outside the specification's domain (revm wraps there and State then panics on the
+    // "emptied" account — recorded under C08, selfdestruct-into-balance-that-overflows);
+    // sender balances at the boundaries are part (i)'s business
+    for a in base.world.accounts.values_mut() {
+        if a.balance > (U256::from(1u8) << 200) {
+            a.balance = U256::from(1u8) << 120;
+        }
+    }
     let mut txs: Vec<(TxSpec, bool)> = vec![];
     for t in &base.txs {
         txs.push((t.clone(), false));
